@@ -2481,6 +2481,18 @@ func generate(prop, tier string, seed uint64) []string {
 	default:
 		return nil
 	}
+	// results the caller keeps across garbage collections (the collections are forced, which also
+	// empties every sync.Pool — hence at the end of the stream, after the history operations)
+	switch prop {
+	case "C15", "C05", "C03", "C02", "C04":
+		for i := 0; i < 25; i++ {
+			if prop == "C05" || prop == "C04" || (prop == "C15" && i%2 == 0) {
+				x.wlgenOp("wlgen", " gc=1")
+			} else {
+				x.chargenOp(x.recipe(x.g.intn(4)), " gc=1")
+			}
+		}
+	}
 	// Replay the head of the stream at its end, in the same process: whatever the library has seen
 	// in between, the same call must give the same answer (process-level caches, polluted shared
 	// tables, once-flags show up here for every property).
